@@ -93,6 +93,49 @@ def main():
                     obs.append(o)
                     meta.append(dict(sc, bearing_to_centroid=b_c, bearing_error_deg=err, wind_bearing=b_w))
                     chk.case((k, closure, mol, nx))
+    # directions BETWEEN the multiples of 15 degrees: the decomposition stage for many angles (small angles, angles just
+    # above 2 pi degrees, near every cardinal direction, non-integers), and the whole chain for directions one degree off
+    # the cardinals.  The sector of the direction is the nearest multiple of 15 degrees; angles within half a degree of a
+    # sector boundary are not used.
+    extra = [0.5, 1.0, 2.0, 3.0, 4.0, 5.0, 6.0, 6.28, 6.3, 7.0, 8.5, 10.0, 20.0, 44.0, 57.3, 89.0, 91.0, 100.5, 114.6, 179.0, 181.0, 187.3, 200.2, 268.9, 271.0,
+             286.5, 300.1, 352.9, 354.0, 357.0, 358.0, 359.0, 359.5]
+    extra += [float(x) for x in rng.uniform(0, 360, 40 if t == "quick" else 400)]
+    extra = [d for d in extra if abs(((d + 7.5) % 15.0) - 0.0) > 0.5 and abs(((d + 7.5) % 15.0) - 15.0) > 0.5]
+    for d in extra:
+        k = int(round(d / 15.0)) % 24
+        speed = 3.0
+        u, v = compute_wind_fields(speed, d)
+        if abs(math.hypot(u, v) - speed) > 1e-12 * speed:
+            chk.violation("wind decomposition does not preserve the speed: |(u,v)| = %r for speed %r, direction %r" % (math.hypot(u, v), speed, d), {"kind": "orientation", "wind_dir": d}, klass={"check": "speed"})
+        s_w, b_w = sector(u, v)
+        obs.append({"k": k, "wind": s_w, "prof_zm": s_w, "prof_top": s_w, "cent": k, "tower_sx": 2, "tower_sy": 2, "want_sx": 2, "want_sy": 2, "x_east": True, "y_north": True})
+        meta.append({"kind": "orientation", "wind_dir": d, "closure": "-", "mol": 0.0, "grid": [], "speed": speed, "path": "decomposition only", "bearing_to_centroid": d, "bearing_error_deg": 0.0, "wind_bearing": b_w})
+        chk.case(("decompose", d))
+    for d in (1.0, 359.0, 91.0, 181.0, 269.0):
+        k = int(round(d / 15.0)) % 24
+        nx, ny, xmax, ymax = grids[0]
+        ref_lat, ref_lon = 48.0, 9.0
+        dlat = math.degrees((ymax / 2) / R)
+        dlon = math.degrees((xmax / 2) / (R * math.cos(math.radians(ref_lat))))
+        raw = {"domain": {"nx": nx, "ny": ny, "xmax": xmax, "ymax": ymax, "nz": 12, "modes": [64, 64], "ref_lat": ref_lat, "ref_lon": ref_lon},
+               "towers": [{"name": "c", "lat": ref_lat + dlat, "lon": ref_lon + dlon, "z_m": 3.0}],
+               "met": {"ustar": 0.35, "mol": -80.0, "wind_speed": 3.0, "wind_dir": d}, "solver": {"closure": "MOST", "footprint": True, "precision": "double"}}
+        cfg = parse_config_dict(raw)
+        tw = cfg.towers[0]
+        res = run_bldfm_single(cfg, tw)
+        X, Y, _ = res["grid"]
+        f = np.asarray(res["flx"], dtype=float)
+        rad = min(xmax, ymax) / 2.0 - max(xmax / nx, ymax / ny)
+        f = np.where((X - tw.x) ** 2 + (Y - tw.y) ** 2 <= rad ** 2, f, 0.0)
+        cx = float((f * (X - tw.x)).sum() / f.sum())
+        cy = float((f * (Y - tw.y)).sum() / f.sum())
+        s_c, b_c = sector(cx, cy)
+        u, v = compute_wind_fields(3.0, d)
+        s_w, b_w = sector(u, v)
+        obs.append({"k": k, "wind": s_w, "prof_zm": s_w, "prof_top": s_w, "cent": s_c, "tower_sx": 2, "tower_sy": 2, "want_sx": 2, "want_sy": 2, "x_east": True, "y_north": True})
+        meta.append({"kind": "orientation", "wind_dir": d, "closure": "MOST", "mol": -80.0, "grid": [nx, ny, xmax, ymax], "speed": 3.0, "path": "one degree off a cardinal direction",
+                     "bearing_to_centroid": b_c, "bearing_error_deg": (b_c - d + 180.0) % 360.0 - 180.0, "wind_bearing": b_w})
+        chk.case(("offcardinal", d))
     # the same convention through the series drivers: a direction sweep in which ONLY wind_dir varies from record to record
     from bldfm import run_bldfm_timeseries, run_bldfm_multitower
 
@@ -158,7 +201,7 @@ def main():
     chk.extra["observations"] = len(obs)
     chk.extra["observations_accepted"] = acc
     chk.extra["largest_bearing_error_deg"] = worst
-    chk.rule = "24 wind directions (multiples of 15 degrees) x 3 closures x stabilities x square/oblong grid, tower quadrant and speed drawn from the seed; each run is one five-stage observation judged by TLC against Orientation.tla"
+    chk.rule = "24 wind directions (multiples of 15 degrees) x 3 closures x stabilities x square/oblong grid, tower quadrant and speed drawn from the seed; each run is one five-stage observation judged by TLC against Orientation.tla; plus the decomposition stage for ~70 (~430) directions between the multiples and the whole chain one degree off the cardinal directions"
     for o in obs[:2]:
         chk.sample(o)
     chk.assumptions += ["a vector is abstracted to its 15-degree compass sector: a measured bearing within 7.5 degrees of the wind direction is accepted ('a few degrees')",
